@@ -7,11 +7,12 @@ def run(tier, runner):
     pts = [p for p in matrix.vec_points(tier) if p.flavour != 'fcv'] + matrix.swap2_points(tier)
     progs = matrix.programs(runner, pts)
     vp = [p for p in progs if 'flavour' in p.meta]
-    r_da = ownership.alloc_args(progs)
-    r_fa = ownership.free_all(progs)
+    real = matrix.real_programs(runner, tier)
+    r_da = ownership.alloc_args(progs + real)
+    r_fa = ownership.free_all(progs + real)
     r_st = ownership.steal(vp)
     r_re = callgraph.realloc_tr([(p, p.meta['E'], p.meta['elem'] in gen.RELOC, p.meta['alloc'] in ('amc', 'realloc')) for p in vp])
-    r_w = encoding.enc_w(progs)
+    r_w = encoding.enc_w(progs + real)
     r_da.require(9, 'deallocate / Reallocate call sites')
     r_fa.require(8, 'storage pointer overwrites and releasing functions')
     r_st.require(6, 'buffer hand-over functions')
